@@ -306,9 +306,14 @@ Record switches := { wait_cfg_unguarded : bool; stale_close_unfiltered : bool; d
 
 Definition fixed : switches :=
   {| wait_cfg_unguarded := false; stale_close_unfiltered := false; dead_conn_reused := false |}.
-(* the switch values of the CURRENT code in /repo *)
-Definition faithful : switches :=
+(* the code as pinned in round 1: all three defects present *)
+Definition pinned : switches :=
   {| wait_cfg_unguarded := true; stale_close_unfiltered := true; dead_conn_reused := true |}.
+(* the switch values of the CURRENT code in /repo: read from the shapes of Start and connClosed on
+   every run (Model/StubConsts.v; a switch is off only when the repaired shape is recognised) *)
+Definition faithful : switches :=
+  {| wait_cfg_unguarded := life_wait_cfg_unguarded; stale_close_unfiltered := life_stale_close_unfiltered;
+     dead_conn_reused := life_dead_conn_reused |}.
 
 (* stub.conn: nil, the socket dialled for generation g (live), or that socket closed / peer gone *)
 Inductive conn := CNone | CLive (g : nat) | CDead (g : nat).
@@ -522,3 +527,96 @@ Definition settle (sw : switches) (s : state) : state := drain sw (drain_fuel s)
 
 Fixpoint count_occ_nat (g : nat) (l : list nat) : nat :=
   match l with [] => 0 | x :: r => (if Nat.eqb x g then 1 else 0) + count_occ_nat g r end.
+
+(* ---------------------------------------------------------------------- *)
+(* Operations as a plugin (and the correspondence driver) performs them     *)
+(* ---------------------------------------------------------------------- *)
+
+(* what the runtime end does with one Start *)
+Inductive behaviour :=
+| BHealthy          (* registers, configures, synchronizes *)
+| BUnreachable      (* the dial fails *)
+| BRefuse           (* RegisterPlugin answered with an error *)
+| BDropInReg        (* connection dropped on receipt of RegisterPlugin, no answer *)
+| BSilentReg        (* RegisterPlugin never answered: the registration time-out expires *)
+| BDropAfterReg     (* registration answered, connection dropped before Configure is sent *)
+| BCfgError         (* the plugin's Configure fails *)
+| BDropAfterCfg.    (* configured, then the connection is dropped *)
+
+Definition start_actions (b : behaviour) : list action :=
+  match b with
+  | BHealthy => [AStart; EDialOk; ISetupOk; ERegOk; ECfgOk]
+  | BUnreachable => [AStart; EDialFail]
+  | BRefuse => [AStart; EDialOk; ISetupOk; ERegRefused]
+  | BDropInReg => [AStart; EDialOk; ISetupOk; EConnLost]
+  | BSilentReg => [AStart; EDialOk; ISetupOk; ETimeout]
+  | BDropAfterReg => [AStart; EDialOk; ISetupOk; ERegOk; EConnLost]
+  | BCfgError => [AStart; EDialOk; ISetupOk; ERegOk; ECfgErr]
+  | BDropAfterCfg => [AStart; EDialOk; ISetupOk; ERegOk; ECfgOk; EConnLost]
+  end.
+
+Definition is_registering (s : state) : bool := match ph s with Registering => true | _ => false end.
+
+(* one Start against a runtime end behaving as b: the environment events of b in order (events
+   that cannot occur in the phase reached are skipped by [step]); a registration attempted on a
+   dead connection is noticed as a lost connection *)
+Definition run_start (sw : switches) (s : state) (b : behaviour) : state :=
+  let s1 := run sw s (start_actions b) in
+  if is_registering s1 && negb (conn_live (sconn s1)) then step sw s1 EConnLost else s1.
+
+Inductive op :=
+| OStart (b : behaviour)      (* Start, then wait until everything under way has happened *)
+| OStop | OWait | OLose       (* Stop / a Wait call in the background / the runtime drops an established session *)
+| OStopStart (b : behaviour). (* Stop immediately followed by Start: the close notification of the
+                                 stopped session may run before or after the new Start *)
+
+(* what is observed of one operation *)
+Inductive oclass := KOk | KErr | KReturned | KBlocked.
+Record obs := {
+  o_class : oclass;
+  o_started : option bool;  (* IsStarted; None = the call does not return (the lock is held for ever) *)
+  o_closes : nat;           (* close call-backs seen so far *)
+  o_waiting : nat           (* Wait calls still blocked *)
+}.
+
+Definition observe (k : oclass) (s : state) : obs :=
+  {| o_class := k; o_started := if lock_free s then Some (started s) else None;
+     o_closes := length (fired s); o_waiting := length (waiters s) |}.
+
+Definition start_class (s : state) : oclass :=
+  if start_pending s then KBlocked
+  else match last_start s with Some ResOk => KOk | _ => KErr end.
+
+Definition serve_done (sw : switches) (s : state) : state :=
+  match ph s with Closing => step sw s IServeDone | _ => s end.
+
+(* the possible outcomes of one operation (more than one only where the schedule matters) *)
+Definition do_op (sw : switches) (s : state) (o : op) : list (state * obs) :=
+  if negb (lock_free s) then [(s, observe KBlocked s)]
+  else
+    match o with
+    | OStart b =>
+        let s1 := settle sw (run_start sw s b) in [(s1, observe (start_class s1) s1)]
+    | OStop => let s1 := settle sw (step sw s AStop) in [(s1, observe KReturned s1)]
+    | OWait => let s1 := step sw s AWait in [(s1, observe KReturned s1)]
+    | OLose => let s1 := settle sw (step sw s EConnLost) in [(s1, observe KReturned s1)]
+    | OStopStart b =>
+        let s0 := serve_done sw (step sw s AStop) in
+        let late := settle sw (run_start sw s0 b) in              (* the new Start wins the lock *)
+        let early := settle sw (run_start sw (settle sw s0) b) in (* the old notification runs first *)
+        [(late, observe (start_class late) late); (early, observe (start_class early) early)]
+    end.
+
+Definition is_blocked (o : obs) : bool := match o_class o with KBlocked => true | _ => false end.
+
+(* all possible observation sequences of a sequence of operations; nothing is attempted any
+   more once an operation did not return *)
+Fixpoint run_ops (sw : switches) (s : state) (ops : list op) : list (list obs) :=
+  match ops with
+  | [] => [[]]
+  | o :: rest =>
+      flat_map (fun so : state * obs =>
+                  if is_blocked (snd so) then [[snd so]]
+                  else map (cons (snd so)) (run_ops sw (fst so) rest))
+               (do_op sw s o)
+  end.
